@@ -90,7 +90,7 @@ type VerifLoggerOpts struct {
 	Only                                                        []string
 }
 
-type VerifLine struct {
+type VerifLogLine struct {
 	File   string
 	Lineno int      // 0 = whole file, -1 = EOF
 	Raws   []string // orignl of every raw line
@@ -134,7 +134,7 @@ type VerifLoggerResult struct {
 }
 
 // VerifLoggerScript drives the real Logger (fresh G, output captured) with the given events.
-func VerifLoggerScript(opts VerifLoggerOpts, lines []VerifLine, events []VerifEvent) VerifLoggerResult {
+func VerifLoggerScript(opts VerifLoggerOpts, lines []VerifLogLine, events []VerifEvent) VerifLoggerResult {
 	verifC08Mu.Lock()
 	defer verifC08Mu.Unlock()
 	var out, err bytes.Buffer
